@@ -52,6 +52,9 @@ func checkC15(c *Ctx) {
 	checkLookupDoesNotRegister(c, p, "C15-R9")
 	checkDecimalOutput(c, p, "C15-R10")
 	checkWellFormedPaddingRemoved(c, p, "C15-R12")
+	c.Rule("C15-R13", "TColor folds and elides by the colour count the entry's strings were written for: the count is raised to 256 only in the block that also gives the entry the 256-colour strings, decided by the name alone (raised for direct colour, 8-colour strings get raw numbers up to 255; = C14-R13)")
+	c.Expect("C15-R13", 1)
+	checkSynth256Unconditional(c, p, "C15-R13")
 	if tp := p.Fn("terminfo:(*Terminfo).TParm"); tp != nil {
 		c.asRule("C07-R10", "C15-R11", func() { c07CallLocal(c, p, tp) })
 	} else {
